@@ -80,8 +80,17 @@ def run_op(coll, op, clock):
         fn = coll.delete_many if a['multi'] else coll.delete_one
         return {'deleted': fn(a['filter']).deleted_count}
     if o == 'find':
-        cur = coll.find(a['filter'], a.get('proj'), sort=[tuple(x) for x in a['sort']] or None,
-                        skip=a['skip'], limit=a['limit'])
+        srt = [tuple(x) for x in a['sort']] or None
+        via = a.get('via', 'kwargs')
+        if via == 'chain' and srt:
+            cur = coll.find(a['filter'], a.get('proj'), skip=a['skip'], limit=a['limit']).sort(srt)
+        else:
+            cur = coll.find(a['filter'], a.get('proj'), sort=srt, skip=a['skip'], limit=a['limit'])
+        if via == 'index':
+            try:
+                return canon([cur[0]])
+            except IndexError:
+                return []
         return canon(list(cur))
     if o == 'fam':
         kw = {'projection': a.get('proj'), 'sort': [tuple(x) for x in a['sort']] or None}
@@ -146,7 +155,7 @@ def run_op(coll, op, clock):
     raise ValueError(o)
 
 
-def run_history(ops, pre5=False):
+def run_history(ops, pre5=False, tz_aware=False):
     """-> list of (outcome dict {'ok': v} | {'err': cls}, store dump) per op, plus notes"""
     clock = [T0]
     obs = []
@@ -154,7 +163,7 @@ def run_history(ops, pre5=False):
     with mock.patch('mongomock.collection.ObjectId', common.CounterOidFactory(1000)), \
             mock.patch('mongomock.utcnow', side_effect=lambda: clock[0]), \
             mock.patch('mongomock.SERVER_VERSION', '4.4.0' if pre5 else '5.0.5'):
-        coll = mongomock.MongoClient().db.c
+        coll = mongomock.MongoClient(tz_aware=tz_aware).db.c
         for k, op in enumerate(ops):
             try:
                 r = run_op(coll, op, clock)
@@ -211,6 +220,11 @@ def op_to_coq(op):
     if o == 'delete':
         return 'ODelete (%s) %s' % (to_coq(op['filter']), coq_bool(op['multi']))
     if o == 'find':
+        if op.get('via') == 'index':
+            # cursor[0]: the first document of the window = the same find with limit 1
+            # (only generated with limit 0)
+            return 'OFind (%s) %s %s %s 1' % (to_coq(op['filter']), proj_to_coq(op.get('proj')),
+                                              sort_to_coq(op['sort']), coq_z(op['skip']))
         return 'OFind (%s) %s %s %s %s' % (to_coq(op['filter']), proj_to_coq(op.get('proj')),
                                            sort_to_coq(op['sort']), coq_z(op['skip']), coq_z(op['limit']))
     if o == 'fam':
@@ -386,9 +400,13 @@ def gen_op(rng, docs, weights, **kw):
         if rng.random() < 0.4:
             sort = [[rng.choice(gen.KEYS + ['_id', 'a.b']), rng.choice([1, -1])]
                     for _ in range(rng.choice([1, 1, 2]))]
-        return {'op': 'find', 'filter': gen_filter(rng, docs, **kw), 'sort': sort,
+        op = {'op': 'find', 'filter': gen_filter(rng, docs, **kw), 'sort': sort,
                 'proj': gen_projection(rng, docs) if rng.random() < 0.3 else None,
-                'skip': rng.choice([0, 0, 0, 1, 2]), 'limit': rng.choice([0, 0, 0, 1, 2, -1])}
+                'skip': rng.choice([0, 0, 0, 1, 2]), 'limit': rng.choice([0, 0, 0, 1, 2, -1]),
+                'via': rng.choice(['kwargs', 'kwargs', 'chain', 'index'])}
+        if op['via'] == 'index':
+            op['limit'] = 0
+        return op
     if k == 'fam':
         kind = rng.choice(['update', 'update', 'replace', 'delete'])
         sort = []
